@@ -369,7 +369,7 @@ fn static_of_text(src: &str) -> Option<Result<StaticOk, (String, String)>> {
 }
 
 fn dyn_of_text<D: Subject + FrameCount>(src: &str) -> Option<Result<usize, (String, String)>> {
-    match guard(|| conform::<D>(src, &V::Int(5), 2_000)) {
+    match guard(|| conform::<D>(src, &V::Int(5), 300)) {
         Ok(r) => r,
         Err(p) => Some(Err((format!("panic[{}]", crate::fw::panic_kind(&p)), String::new()))),
     }
